@@ -12,6 +12,10 @@ Property oracle (independent of the Lean model and of the code's formulas):
 * edit distance = naive memoised Levenshtein recursion on suffixes; banded: exact if lev <= maxdiff,
   else > maxdiff.
 
+* several objects alive at once (a Genotype is mutable: `__setstate__` replaces the wrapped C++ object in place): a restore changes
+  the object it is called on and no other; `copy.deepcopy` (of an object or of a container / VariantTable holding it) gives
+  objects with the same genotype whose later restores do not reach the original, and vice versa (shadow list of multisets).
+
 Machine level (deepening): `Genotype(uint64_t index, uint32_t ploidy)`, the packed 64-bit word (`get_code()`), `==`/`<`
 between objects built by either constructor, `convert_index_to_alleles` with its narrowing of the index, and
 `binomial_coefficient` beyond its exact range are compared with the fixed-width Lean model (`Model/C19Word.lean`).
@@ -24,6 +28,9 @@ import functools, itertools, json, os, sys
 
 RULE = ("genotype cases: constructor from an arbitrary-order allele list, index, as_vector, ploidy, save/restore, "
         "restore from (index, ploidy), ==/!=/< on pairs; non-trivial = ploidy >= 2 with >= 2 distinct alleles (or a pair of such). "
+        "heap cases: a history over several Genotype objects (construct, copy.deepcopy of objects / lists / tuples / dicts / nested containers / "
+        "a VariantTable, __setstate__ into originals and copies), every object observed after every step; non-trivial = at least one deep copy and "
+        "one restore while >= 2 objects are alive. "
         "machine-level cases: Genotype(index, ploidy) / the packed word of an allele list / genotypes() of one (ploidy, alleles) / a "
         "mixed-origin comparison; non-trivial as above. "
         "edit-distance cases: one (s, t) pair evaluated unbanded and for every band 0..max(len)+1; non-trivial = both strings "
@@ -372,6 +379,8 @@ def run(ctx):
             do_enum(c["ploidy"], c["alleles"])
         elif k == "reuse":
             do_reuse(c["chain"], c["queries"])
+        elif k == "heap":
+            do_heap(c["ops"])
         elif k == "word":
             do_word(c["alleles"])
         elif k == "fromindex":
@@ -424,6 +433,148 @@ def run(ctx):
                          f"{diff} (observed, expected)", case, key="geno-restore-into-used-object")
                 return
         ctx.nontrivial(("reuse", tuple(tuple(c) for c in chain), tuple(tuple(q) for q in queries)))
+
+    def deep_copies(objs, via):
+        """copy.deepcopy of the objects `objs` (distinct or not) through a container of kind `via`; returns the copies in the order of `objs`"""
+        if via == "each":
+            memo = {}
+            return [copy.deepcopy(o, memo) for o in objs]
+        if via == "list":
+            return list(copy.deepcopy(list(objs)))
+        if via == "tuple":
+            return list(copy.deepcopy(tuple(objs)))
+        if via == "dict":
+            d = copy.deepcopy({i: o for i, o in enumerate(objs)})
+            return [d[i] for i in range(len(objs))]
+        if via == "nested":
+            d = copy.deepcopy({"a": [list(objs[0::2])], "b": (tuple(objs[1::2]), "x")})
+            out = [None] * len(objs)
+            out[0::2] = d["a"][0]; out[1::2] = d["b"][0]
+            return out
+        if via == "table":
+            # what `whatshap phase` / `polyphase` do: deepcopy(variant_table); two samples, the objects laid out row by row
+            from whatshap.vcf import VariantTable, BiallelicVcfVariant
+            objs = list(objs)
+            odd = len(objs) % 2
+            if odd:
+                objs.append(Genotype([]))
+            t = VariantTable("chr1", ["s0", "s1"])
+            for r in range(len(objs) // 2):
+                t.add_variant(BiallelicVcfVariant(10 * r + 1, "A", "C"), [objs[2 * r], objs[2 * r + 1]], [None, None], [None, None], [None, None])
+            t2 = copy.deepcopy(t)
+            g0, g1 = t2.genotypes_of("s0"), t2.genotypes_of("s1")
+            out = [x for pair in zip(g0, g1) for x in pair]
+            return out[:-1] if odd else out
+        raise ValueError(via)
+
+    def do_heap(ops):
+        """SEVERAL Genotype objects alive at once: a history of constructions, deep copies (of single objects and of containers,
+        as `deepcopy(variant_table)` in phase.py does) and state restores into some of them.  A Genotype is mutable
+        (`__setstate__` replaces the wrapped C++ object in place), so after EVERY step EVERY object is observed: the object a
+        restore was called on must hold the restored genotype, a fresh copy must hold the genotype of its source, and every
+        other object must still report its own index / alleles / state.  Oracle = a shadow list of allele multisets
+        (rank/unrank by the Pascal table); model = `c19.heap` (cells in allocation order)."""
+        case = {"kind": "heap", "ops": ops}
+        ctx.evaluated()
+        objs, shadow, enc = [], [], []       # handle k: the Python object, the multiset it must hold (ascending tuple)
+        snaps = []
+        interesting = False
+        try:
+            for step, op in enumerate(ops):
+                kind = op["op"]
+                touched, how = set(), kind
+                if kind == "new":
+                    objs.append(Genotype(list(op["alleles"]))); shadow.append(tuple(sorted(op["alleles"])))
+                    touched = {len(objs) - 1}; enc.append([0] + list(op["alleles"]))
+                elif kind == "copy":
+                    srcs, via = list(op["srcs"]), op["via"]
+                    new = deep_copies([objs[k] for k in srcs], via)
+                    first = {}
+                    for k, c in zip(srcs, new):
+                        if k in first:           # the same object twice in one container: one copy (deepcopy's memo), nothing new
+                            continue
+                        first[k] = len(objs)
+                        objs.append(c); shadow.append(shadow[k]); touched.add(len(objs) - 1)
+                    enc.append([1, srcs[0]] if len(srcs) == 1 else [4] + srcs)
+                    how = f"deepcopy via {via} of objects {srcs}"
+                elif kind == "restore":
+                    d = op["dst"]
+                    try:
+                        objs[d].__setstate__((op["index"], op["ploidy"]))
+                    except RuntimeError:
+                        immortal(objs[d]); raise
+                    shadow[d] = unrank(op["index"], op["ploidy"]); touched = {d}
+                    enc.append([2, d, op["index"], op["ploidy"]])
+                    how = f"object {d}.__setstate__(({op['index']}, {op['ploidy']}))"
+                    interesting = interesting or len(objs) > 1
+                elif kind == "restorefrom":
+                    d, k = op["dst"], op["src"]
+                    try:
+                        objs[d].__setstate__(objs[k].__getstate__())
+                    except RuntimeError:
+                        immortal(objs[d]); raise
+                    shadow[d] = shadow[k]; touched = {d}
+                    enc.append([3, d, k])
+                    how = f"object {d}.__setstate__(object {k}.__getstate__())"
+                    interesting = interesting or len(objs) > 1
+                else:
+                    raise ValueError(kind)
+                snap = []
+                for k, (g, want) in enumerate(zip(objs, shadow)):
+                    fresh = Genotype(list(want))
+                    st = g.__getstate__()
+                    obs = {"vector": list(g.as_vector()), "index": g.get_index(), "ploidy": g.get_ploidy(), "state": [int(st[0]), int(st[1])],
+                           "eq": bool(g == fresh), "ne": bool(g != fresh), "hash_eq": hash(g) == hash(fresh)}
+                    exp = {"vector": list(want[::-1]), "index": rank(want), "ploidy": len(want), "state": [rank(want), len(want)],
+                           "eq": True, "ne": False, "hash_eq": True}
+                    snap.append([obs["vector"], obs["index"], obs["ploidy"]])
+                    if obs != exp:
+                        diff = {f: (obs[f], exp[f]) for f in exp if obs[f] != exp[f]}
+                        if k in touched:
+                            key = "heap-copy-value" if kind == "copy" else ("heap-new" if kind == "new" else "heap-restore-target")
+                            ctx.fail(f"step {step} ({how}): object {k} should now be {list(want)} but reports {diff} (observed, expected)", case, key=key)
+                        else:
+                            ctx.fail(f"step {step} ({how}) changed ANOTHER object: object {k} held {list(want)} and was not touched, now it reports "
+                                     f"{diff} (observed, expected); index, alleles, equality and saved state of an object must not depend "
+                                     f"on restores into other objects / its copies", case, key="heap-other-object-changed")
+                        return
+                snaps.append(snap)
+        except RuntimeError as e:
+            # every genotype of a history is within the limits: nothing here may raise
+            ctx.fail(f"history {ops} raised {e}", case, key="geno-ctor")
+            return
+        ctx.dist("heap objects", len(objs))
+        if interesting and any(op["op"] == "copy" for op in ops):
+            ctx.nontrivial(("heap", json.dumps(ops, sort_keys=True)))
+        ask({"op": "c19.heap", "ops": enc}, case, snaps)
+
+    def gen_heap():
+        """a random history: 1-3 constructed objects, then copies (single / containers, copies of copies) and restores into
+        originals and copies; small ploidy/allele counts mostly, sometimes up to the limits"""
+        small = rng.random() < 0.8
+        def rand_alleles(p=None):
+            if p is None:
+                p = rng.choice([1, 2, 2, 2, 3, 4]) if small else rng.randrange(0, MAXP + 1)
+            na = rng.choice([2, 2, 3, 4]) if small else rng.randrange(1, MAXA + 1)
+            return [rng.randrange(na) for _ in range(p)]
+        ops, n, has_copy = [], 0, False
+        for _ in range(rng.randrange(1, 4)):
+            ops.append({"op": "new", "alleles": rand_alleles()}); n += 1
+        for _ in range(rng.randrange(2, 8)):
+            r = rng.random()
+            if r < 0.4 or not has_copy:
+                if rng.random() < 0.5:
+                    srcs, via = [rng.randrange(n)], rng.choice(["each", "each", "list", "dict", "table"])
+                else:
+                    srcs = [rng.randrange(n) for _ in range(rng.randrange(1, 5))]
+                    via = rng.choice(["each", "list", "tuple", "dict", "nested", "table", "table"])
+                ops.append({"op": "copy", "srcs": srcs, "via": via}); n += len(set(srcs)); has_copy = True
+            elif r < 0.75:
+                al = rand_alleles(rng.choice([None, None, 2]))
+                ops.append({"op": "restore", "dst": rng.randrange(n), "index": rank(al), "ploidy": len(al)})
+            else:
+                ops.append({"op": "restorefrom", "dst": rng.randrange(n), "src": rng.randrange(n)})
+        return ops
 
     def do_enum(p, a):
         """all genotypes of ploidy p over a alleles: indices are exactly 0..count-1 in VCF order (no gaps)"""
@@ -680,6 +831,22 @@ def run(ctx):
             chain.append(al)
             queries.append(rng.sample(["index", "hash", "state", "vector", "str"], rng.randrange(0, 4)))
         do_reuse(chain, queries[:-1])
+
+    # ---------------------------------------------------------------- several objects alive: copies and restores (object independence)
+    # exhaustive tiny: every genotype of ploidy <= 2 over 3 alleles, deep-copied, every other state of the same space restored
+    # into the copy (and, the other way round, into the original)
+    tiny = [g for p in (1, 2) for g in vcf_order(p, 3)]
+    for x in tiny:
+        for y in tiny:
+            if x != y:
+                into_copy = (rank(x) + rank(y)) % 2 == 0
+                do_heap([{"op": "new", "alleles": list(x)}, {"op": "copy", "srcs": [0], "via": "each"},
+                         {"op": "restore", "dst": 1 if into_copy else 0, "index": rank(y), "ploidy": len(y)}])
+    for _ in range((400 if ctx.quick else 6000) * ctx.scale):
+        if len(ctx.fails) > 300:
+            break
+        do_heap(gen_heap())
+    flush()
 
     # ---------------------------------------------------------------- F10 observation: pickle / copy
     for al in ([0, 1], [2, 0, 1, 1], []):
